@@ -394,10 +394,26 @@ def dec(v):
     return Foreign()
 
 
+_ITER_KIND = [0]
+
+
 def dec_nest(n):
+    """Wire nest -> Python argument.  An "I" node is an iterable; which KIND of iterable (list, tuple, generator expression,
+    iterator, map object) rotates deterministically: the helpers must treat them all alike (one-shot iterables included)."""
     if n[0] == "L":
         return dec(n[1])
-    return [dec_nest(x) for x in n[1:]]
+    items = [dec_nest(x) for x in n[1:]]
+    _ITER_KIND[0] += 1
+    k = _ITER_KIND[0] % 5
+    if k == 0:
+        return items
+    if k == 1:
+        return tuple(items)
+    if k == 2:
+        return (x for x in items)
+    if k == 3:
+        return iter(items)
+    return map(lambda x: x, items)
 
 
 def nest_leaves(n):
